@@ -91,3 +91,27 @@ Proof.
     destruct Hin as [->|Hin]; [rewrite String.eqb_refl in E2; discriminate|].
     apply IH; assumption.
 Qed.
+
+(* with the fix (commit 88a9593) the translated table is the identity: the full statement *)
+Definition fullb : bool := forallb (fun p => String.eqb (fst p) (snd p)) bytes_delegation.
+Lemma fullb_true : fullb = true.
+Proof. vm_compute. reflexivity. Qed.
+Lemma adapter_full_holds : adapter_full.
+Proof.
+  intros m d Hin. pose proof fullb_true as H. unfold fullb in H. rewrite forallb_forall in H.
+  specialize (H _ Hin). cbn [fst snd] in H. apply String.eqb_eq in H. congruence.
+Qed.
+Lemma adapter_view_every : forall method, In method bytes_methods ->
+  forall m base size buf addr count,
+  fvs_call bytes_delegation method m base size buf addr count = vs_call method m base size buf addr count.
+Proof.
+  intros method Hin m base size buf addr count.
+  destruct (delegate bytes_delegation method) as [target|] eqn:E.
+  - pose proof (delegate_in _ _ _ E) as Hd. rewrite (adapter_full_holds _ _ Hd) in E. apply adapter_view; exact E.
+  - exfalso. rewrite <- adapter_methods in Hin.
+    revert E Hin. generalize bytes_delegation as t.
+    induction t as [|[a b] t IH]; cbn [delegate map fst In]; intros E Hin; [contradiction|].
+    destruct (String.eqb a method) eqn:E2; [discriminate|].
+    destruct Hin as [->|Hin]; [rewrite String.eqb_refl in E2; discriminate|].
+    apply IH; assumption.
+Qed.
